@@ -479,6 +479,17 @@ func RunRegress(t *testing.T, replay ReplayFunc) {
 		if json.Unmarshal(b, &f) != nil {
 			continue
 		}
+		if skip := os.Getenv("VERIF_REGRESS_SKIP_UNITS"); skip != "" && f.Unit != "" {
+			isLab := false
+			for _, u := range strings.Split(skip, ",") {
+				if u == f.Unit {
+					isLab = true
+				}
+			}
+			if isLab {
+				continue // replayed in a lab by the orchestrator
+			}
+		}
 		ok := t.Run(filepath.Base(p), func(t *testing.T) {
 			if !replay(t, &f) {
 				t.Skip("other package")
